@@ -76,14 +76,17 @@ func closureBehind(v ssa.Value) *ssa.Function {
 	}
 	var fn *ssa.Function
 	for _, st := range cellStores(cell) {
-		if mc, ok := st.Val.(*ssa.MakeClosure); ok {
-			if f, ok := mc.Fn.(*ssa.Function); ok {
-				if fn != nil && fn != f {
-					return nil
-				}
-				fn = f
-			}
+		var f *ssa.Function
+		switch x := st.Val.(type) {
+		case *ssa.MakeClosure:
+			f, _ = x.Fn.(*ssa.Function)
+		case *ssa.Function:
+			f = x
 		}
+		if f == nil || (fn != nil && fn != f) {
+			return nil
+		}
+		fn = f
 	}
 	return fn
 }
@@ -217,9 +220,34 @@ func ruleFmtClass(w *World, r *Report) {
 			if !copies {
 				continue
 			}
+			// a terminator counts only if matching it leaves the copy loop unconditionally:
+			// the true edge of `A[i] == T` goes straight out of the inner loop
+			innerSet := map[*ssa.BasicBlock]bool{}
+			for _, x := range inner {
+				innerSet[x] = true
+			}
 			var terms []int64
-			for t := range runeCompares(inner) {
-				terms = append(terms, t)
+			for _, x := range inner {
+				iff, ok := x.Instrs[len(x.Instrs)-1].(*ssa.If)
+				if !ok {
+					continue
+				}
+				bo2, ok := iff.Cond.(*ssa.BinOp)
+				if !ok || bo2.Op != token.EQL {
+					continue
+				}
+				t, okt := constInt(bo2.Y)
+				if !okt {
+					continue
+				}
+				if addr, okl := isLoad(bo2.X); !okl {
+					continue
+				} else if _, oki := addr.(*ssa.IndexAddr); !oki {
+					continue
+				}
+				if !innerSet[x.Succs[0]] {
+					terms = append(terms, t)
+				}
 			}
 			sort.Slice(terms, func(i, j int) bool { return terms[i] < terms[j] })
 			formatter[c] = terms
@@ -484,6 +512,8 @@ var c14Witnesses = []Witness{
 		{File: "util.go", Old: "		case c == '\"':\n			// copy string literals through verbatim\n			appendRune(c, prev, indent)\n			for i++; i < len(A); i++ {\n				sb.WriteRune(A[i])\n				if A[i] == '\"' {\n					break\n				}\n			}\n			prev = normal\n", New: ""}}},
 	{Name: "formatter-string-state-stops-at-space", Rule: "R-FMTCLASS", Edits: []Edit{
 		{File: "util.go", Old: "				sb.WriteRune(A[i])\n				if A[i] == '\"' {\n					break\n				}", New: "				sb.WriteRune(A[i])\n				if A[i] == ' ' {\n					break\n				}"}}},
+	{Name: "formatter-honours-backslash-escapes", Rule: "R-FMTCLASS", Edits: []Edit{
+		{File: "util.go", Old: "				if A[i] == '\"' {\n					break\n				}\n			}\n			prev = normal", New: "				if A[i] == '\"' && A[i-1] != '\\\\' {\n					break\n				}\n			}\n			prev = normal"}}},
 	{Name: "lexer-gains-backquote-strings", Rule: "R-FMTCLASS", Edits: []Edit{
 		{File: "parser.go", Old: "				if i == start && r == '\"' {\n					return lexString()\n				}", New: "				if i == start && r == '\"' {\n					return lexString()\n				}\n				if i == start && r == '`' {\n					return lexRaw()\n				}"},
 		{File: "parser.go", Old: "		nextToken = func() (string, error) {", New: "		lexRaw = func() (string, error) {\n			start := i\n			i += 1\n			for ; i < len(A); i++ {\n				if A[i] == '`' {\n					i++\n					return \"\\\"\" + string(A[start+1:i-1]) + \"\\\"\", nil\n				}\n			}\n			return \"\", errors.New(\"unclosed quotes\")\n		}\n\n		nextToken = func() (string, error) {"}}},
